@@ -859,6 +859,9 @@ impl CommandExecutor for DrawExecutor {
                     return Err(anyhow::anyhow!("PolyFill requires minimun 1 arguments"));
                 }
                 let points: i32 = parameters[0];
+                if points < 1 {
+                    return Err(anyhow::anyhow!("PolyFill requires at least 1 point"));
+                }
                 if points * 2 + 1 != parameters.len() as i32 {
                     return Err(anyhow::anyhow!("PolyFill requires {} arguments was {} ", points * 2 + 1, parameters.len()));
                 }
@@ -874,6 +877,9 @@ impl CommandExecutor for DrawExecutor {
                     return Err(anyhow::anyhow!("PolyLine requires minimun 1 arguments"));
                 }
                 let points: i32 = parameters[0];
+                if points < 2 {
+                    return Err(anyhow::anyhow!("PolyLine requires at least 2 points"));
+                }
                 if points * 2 + 1 != parameters.len() as i32 {
                     return Err(anyhow::anyhow!("PolyLine requires {} arguments was {} ", points * 2 + 1, parameters.len()));
                 }
@@ -1110,7 +1116,12 @@ impl CommandExecutor for DrawExecutor {
                 Ok(CallbackAction::Update)
             }
 
-            IgsCommands::TimeAPause => Ok(CallbackAction::Pause(1000 * parameters[0] as u32)),
+            IgsCommands::TimeAPause => {
+                if parameters.len() != 1 {
+                    return Err(anyhow::anyhow!("TimeAPause command requires 1 argument"));
+                }
+                Ok(CallbackAction::Pause(1000 * parameters[0] as u32))
+            }
 
             IgsCommands::PolymarkerPlot => {
                 if parameters.len() != 2 {
